@@ -2,6 +2,7 @@ package rules
 
 import (
 	"go/token"
+	"go/types"
 	"strings"
 
 	"golang.org/x/tools/go/ssa"
@@ -405,6 +406,86 @@ func isLoopHeader(b *ssa.BasicBlock) bool {
 	return false
 }
 
+// streamWalk is the code a group method runs once for each stream of a consumer: the closure it hands to rangeStreamsOrdered
+// (the form on the reference tree) or, when the walk is written as a loop over the sorted stream names, the body of that
+// loop. "The end of the walk of one stream" is a return of the closure, or a return / the edge back to the loop header.
+type streamWalk struct {
+	fn      *ssa.Function
+	entry   bool       // closure: paths start at the entry
+	from    []eng.Edge // loop: paths start at the edge into the body
+	hdr     *ssa.BasicBlock
+	stream  eng.VM // the stream name of this round
+	endEdge func(eng.Edge) bool
+}
+
+func isRet(in ssa.Instruction) bool { _, ok := in.(*ssa.Return); return ok }
+
+// resolveStreamWalk finds the per-stream code of outerKey; loud records an unresolved anchor when there is none.
+func resolveStreamWalk(c *eng.Ctx, outerKey string, subsF *types.Var, loud bool) *streamWalk {
+	if fn := c.FnQuiet(outerKey + "$1"); fn != nil {
+		return &streamWalk{fn: fn, entry: true, stream: eng.Param("stream"), endEdge: func(eng.Edge) bool { return false }}
+	}
+	outer := c.FnQuiet(outerKey)
+	if outer != nil {
+		// the loop whose body looks the round's stream up in c.subscribers, the key being the loop's element
+		var found *streamWalk
+		n := 0
+		eng.Instrs(outer, func(in ssa.Instruction) {
+			lk, ok := in.(*ssa.Lookup)
+			if !ok || !lk.CommaOk || !eng.Load(subsF, nil)(lk.X) {
+				return
+			}
+			ld, ok := eng.Strip(lk.Index).(*ssa.UnOp)
+			if !ok || ld.Op != token.MUL {
+				return
+			}
+			ia, ok := ld.X.(*ssa.IndexAddr)
+			if !ok {
+				return
+			}
+			ix, ok := ia.Index.(ssa.Instruction)
+			if !ok || !isLoopHeader(ix.Block()) || len(ix.Block().Succs) != 2 {
+				return
+			}
+			h := ix.Block()
+			if !h.Dominates(lk.Block()) {
+				return
+			}
+			n++
+			elem := ssa.Value(ld)
+			found = &streamWalk{fn: outer, from: []eng.Edge{{From: h, Succ: 0}}, hdr: h,
+				stream: func(v ssa.Value) bool { return eng.Strip(v) == elem },
+				endEdge: func(e eng.Edge) bool {
+					return e.To() == h && e.From != nil && h.Dominates(e.From) && e.From != h || e.To() == h && e.From == h
+				},
+			}
+		})
+		if n == 1 {
+			return found
+		}
+	}
+	if loud {
+		c.Unresolved("function " + outerKey + "$1 (or a loop over the consumer's sorted streams in " + outerKey + ")")
+	}
+	return nil
+}
+
+// complete: a walk written as a loop visits every stream — no round returns from the function (in a closure a return ends
+// the round only, in a loop it abandons the streams that are left).
+func (w *streamWalk) complete() *eng.Witness {
+	if w.hdr == nil {
+		return nil
+	}
+	q := &eng.PathQuery{Fn: w.fn, FromEdges: w.from, Target: isRet, CutInstr: func(x ssa.Instruction) bool { return x.Block() == w.hdr }}
+	return q.Find()
+}
+
+// mustPass: no way from the start of a stream's round to its end that avoids pass.
+func (w *streamWalk) mustPass(pass func(ssa.Instruction) bool) *eng.Witness {
+	q := &eng.PathQuery{Fn: w.fn, FromEntry: w.entry, FromEdges: w.from, Target: isRet, TargetEdge: w.endEdge, CutInstr: pass}
+	return q.Find()
+}
+
 // ruleGroupBookkeeping (R12.5, shared with C06): joins, leaves and stream deletions update members, subscriber heaps and
 // assignments together, so that the in-memory group state stays the function of (members, subscriptions, partitions) that a
 // restore recomputes from scratch.
@@ -476,10 +557,15 @@ func ruleGroupBookkeeping(c *eng.Ctx) {
 		w := mustPass(fn, nil, true, func(in ssa.Instruction) bool { _, ok := in.(*ssa.Return); return ok }, eng.IsCallTo("server.consumerGroup.addConsumer"))
 		c.Check(newCons != nil && okAdd && w == nil, "a new member is registered and enters the subscriber heaps", p.Pos(fn.Pos()), "c.members[consumerID] = cons; addConsumer(cons)", "addMember does not both store the consumer under its id and add that same consumer to the subscriber heaps: it is a member without assignments or holds assignments without being a member")
 	}
-	if fn := c.Fn("server.(*consumerGroup).addConsumer$1"); fn != nil {
-		anyRet := func(in ssa.Instruction) bool { _, ok := in.(*ssa.Return); return ok }
-		w1 := mustPass(fn, nil, true, anyRet, eng.IsCallTo("container/heap.Push"))
-		w2 := mustPass(fn, nil, true, anyRet, eng.IsCallTo("server.consumerGroup.balanceAssignmentsForStream"))
+	if sw := resolveStreamWalk(c, "server.(*consumerGroup).addConsumer", subsF, true); sw != nil {
+		fn := sw.fn
+		anyRet := isRet
+		if sw.hdr != nil {
+			wc := sw.complete()
+			c.Check(wc == nil, "the walk over a joining consumer's streams visits every stream", p.Pos(fn.Pos()), "no return inside the loop over the consumer's streams", "addConsumer's loop returns part-way (path "+wc.String()+"): the streams after that one never get the consumer in their heap")
+		}
+		w1 := sw.mustPass(eng.IsCallTo("container/heap.Push"))
+		w2 := sw.mustPass(eng.IsCallTo("server.consumerGroup.balanceAssignmentsForStream"))
 		okPush := false
 		for _, hp := range eng.CallsIn(fn, "container/heap.Push") {
 			a := hp.Common().Args
@@ -493,7 +579,7 @@ func ruleGroupBookkeeping(c *eng.Ctx) {
 		absent := eng.BoolEdges(fn, eng.AnyV, false)
 		okStore := false
 		eng.Instrs(fn, func(in ssa.Instruction) {
-			if mu, ok := in.(*ssa.MapUpdate); ok && eng.Load(subsF, nil)(mu.Map) && eng.Param("stream")(mu.Key) {
+			if mu, ok := in.(*ssa.MapUpdate); ok && eng.Load(subsF, nil)(mu.Map) && sw.stream(mu.Key) {
 				okStore = true
 			}
 		})
@@ -501,12 +587,17 @@ func ruleGroupBookkeeping(c *eng.Ctx) {
 		c.Check(w1 == nil && w2 == nil && okPush && okStore, "a joining consumer enters the heap of each of its streams and the stream is rebalanced", p.Pos(fn.Pos()), "heap.Push(subscribers, cons) and balanceAssignmentsForStream(stream) on every path; a new heap is stored in c.subscribers", "for some stream of a joining consumer the heap push, the rebalance or the registration of a new heap is skipped: its partitions stay with the old members or with nobody")
 		// rebalance after the push
 		for _, hp := range eng.CallsIn(fn, "container/heap.Push") {
-			q := &eng.PathQuery{Fn: fn, FromAfter: []ssa.Instruction{hp.(ssa.Instruction)}, Target: anyRet, CutInstr: eng.IsCallTo("server.consumerGroup.balanceAssignmentsForStream")}
+			q := &eng.PathQuery{Fn: fn, FromAfter: []ssa.Instruction{hp.(ssa.Instruction)}, Target: anyRet, TargetEdge: sw.endEdge, CutInstr: eng.IsCallTo("server.consumerGroup.balanceAssignmentsForStream")}
 			w := q.Find()
 			c.Check(w == nil, "rebalance follows the push", c.Pos(hp.(ssa.Instruction)), "balanceAssignmentsForStream after heap.Push", "the stream is rebalanced before the new consumer is in its heap (path "+w.String()+")")
 		}
 	}
-	if fn := c.Fn("server.(*consumerGroup).removeConsumer$1"); fn != nil {
+	if sw := resolveStreamWalk(c, "server.(*consumerGroup).removeConsumer", subsF, true); sw != nil {
+		fn := sw.fn
+		if sw.hdr != nil {
+			wc := sw.complete()
+			c.Check(wc == nil, "the walk over a leaving consumer's streams visits every stream", p.Pos(fn.Pos()), "no return inside the loop over the consumer's streams", "removeConsumer's loop returns part-way (path "+wc.String()+"): the consumer stays in the heaps of the streams after that one and keeps being handed partitions nobody consumes")
+		}
 		rm := eng.CallsIn(fn, "container/heap.Remove")
 		same := eng.CmpEdges(fn, freeVarNamed("cons"), eng.AnyV, eng.EQ)
 		ok := len(rm) == 1 && len(same) > 0
@@ -519,7 +610,7 @@ func ruleGroupBookkeeping(c *eng.Ctx) {
 		okBal := len(bal) == 1
 		if okBal && len(rm) == 1 {
 			// the rebalance happens after the removal
-			q := &eng.PathQuery{Fn: fn, FromAfter: []ssa.Instruction{bal[0].(ssa.Instruction)}, Target: func(in ssa.Instruction) bool { return in == rm[0].(ssa.Instruction) }}
+			q := &eng.PathQuery{Fn: fn, FromAfter: []ssa.Instruction{bal[0].(ssa.Instruction)}, Target: func(in ssa.Instruction) bool { return in == rm[0].(ssa.Instruction) }, CutEdgeFn: sw.endEdge}
 			okBal = q.Find() == nil
 		}
 		c.Check(okBal, "the stream is rebalanced after the consumer left its heap", p.Pos(fn.Pos()), "balanceAssignmentsForStream(stream) after heap.Remove", "the partitions of a leaving consumer are not redistributed (or are redistributed while it is still in the heap)")
@@ -604,7 +695,8 @@ func ruleGroupBookkeeping(c *eng.Ctx) {
 		})
 		return ok, n
 	}
-	if fn := c.FnQuiet("server.(*consumerGroup).addConsumer$1"); fn != nil {
+	if sw := resolveStreamWalk(c, "server.(*consumerGroup).addConsumer", subsF, false); sw != nil {
+		fn := sw.fn
 		absent := eng.BoolEdges(fn, commaOk(eng.Load(subsF, nil)), false)
 		g, n := guarded(fn, func(in ssa.Instruction) bool {
 			mu, ok := in.(*ssa.MapUpdate)
@@ -612,7 +704,8 @@ func ruleGroupBookkeeping(c *eng.Ctx) {
 		}, absent)
 		c.Check(g && n == 1, "a stream's heap is created only when it has none", p.Pos(fn.Pos()), "c.subscribers[stream] = &consumerHeap{} only on !ok", "addConsumer replaces the existing heap of a stream with an empty one: the consumers already subscribed lose their assignments at the next rebalance")
 	}
-	if fn := c.FnQuiet("server.(*consumerGroup).removeConsumer$1"); fn != nil {
+	if sw := resolveStreamWalk(c, "server.(*consumerGroup).removeConsumer", subsF, false); sw != nil {
+		fn := sw.fn
 		had := eng.BoolEdges(fn, commaOk(eng.LoadNamed("assignments", nil)), true)
 		g, n := guarded(fn, eng.IsCallTo("server.consumerGroup.balanceAssignmentsForStream"), had)
 		present := eng.BoolEdges(fn, commaOk(eng.Load(subsF, nil)), true)
